@@ -133,6 +133,8 @@ def run(facts, rep, prop):
             gs |= {sw for (sw, _d, _s) in found}
         if not gs:
             continue  # guardfx reports the missing guards
+        # a guard that sits inside a helper (`commit_locked(..)?`): the helper call is the guard, not an operation before it
+        guard_calls = {cb for ((fid, sw), (cb, _h)) in guardfx.VIA_HELPER.items() if fid == body.id and sw in gs}
         # blocks from which a refusal guard can still be reached
         preds = body.preds()
         pre, st = set(), list(gs)
@@ -159,7 +161,7 @@ def run(facts, rep, prop):
             if t["k"] != "call":
                 continue
             # only calls that complete before a guard is evaluated (the call block strictly precedes a guard block)
-            if not any(g in body.reachable(body.succ(b)) for g in gs):
+            if not any(g in body.reachable(body.succ(b)) for g in gs) or b in guard_calls:
                 continue
             c = t.get("callee") or ""
             if not any(from_handle(a) for a in t["args"]):
